@@ -586,8 +586,9 @@ func govcCCFB(r *rand.Rand, allowSingletons bool) CCFeedbackReport {
 		if n == 1 && !allowSingletons {
 			n = 2
 		}
-		if int(blk.BeginSequence)+n > 65535 {
-			blk.BeginSequence = uint16(65535 - n)
+		// the reported range begin..begin+n-1 must stay within 16 bits; the boundary (last packet 65535) is favoured
+		if int(blk.BeginSequence)+n > 65536 || (n > 0 && r.Intn(6) == 0) {
+			blk.BeginSequence = uint16(65536 - n)
 		}
 		for j := 0; j < n; j++ {
 			m := CCFeedbackMetricBlock{}
